@@ -34,6 +34,10 @@ func NewBindingManager(localDevice api.DeviceLocalInterface) *BindingManager {
 
 // is sent from the client (remote device) to the server (local device)
 func (c *BindingManager) AddBinding(remoteDevice api.DeviceRemoteInterface, data model.BindingManagementRequestCallType) error {
+	if data.ClientAddress == nil || data.ServerAddress == nil {
+		return errors.New("clientAddress and serverAddress are required")
+	}
+
 	serverFeature := c.localDevice.FeatureByAddress(data.ServerAddress)
 	if serverFeature == nil {
 		return fmt.Errorf("server feature '%s' in local device '%s' not found", data.ServerAddress, *c.localDevice.Address())
@@ -96,6 +100,10 @@ func (c *BindingManager) AddBinding(remoteDevice api.DeviceRemoteInterface, data
 }
 
 func (c *BindingManager) RemoveBinding(data model.BindingManagementDeleteCallType, remoteDevice api.DeviceRemoteInterface) error {
+	if data.ClientAddress == nil || data.ServerAddress == nil {
+		return errors.New("clientAddress and serverAddress are required")
+	}
+
 	var newBindingEntries []*api.BindingEntry
 
 	// according to the spec 7.4.4
